@@ -19,7 +19,7 @@ func init() {
 			"(R11.4) phase Completed is stored only after Finalize()==nil and phase Progressing only after Initialize()==nil (whole-program store enumeration); " +
 			"(R11.5) in every workload controller's Finalize the wait-for-ready predicate never reads an object that only carries its key: on every path from the shell constructor to the read a successful client call filled it in (typestate, path-sensitive through phis), and every path to a nil return under the wait policy passes the wait predicate; " +
 			"(R11.6) the recalculation / restart signals store Upgrading and clear the ready time, and are invoked under the scaling / plan-changed predicates.",
-		NotDecided: "that workload status counters are truthful; the arithmetic of the failure threshold; behaviour of the workload controllers between reconciles.",
+		NotDecided:  "that workload status counters are truthful; the arithmetic of the failure threshold; behaviour of the workload controllers between reconciles.",
 		Assumptions: []string{"an object is 'populated' after a successful controller-runtime client Get/Patch/Update/Create that received it"},
 	})
 }
